@@ -41,5 +41,8 @@ func (e errorHandler) ServeHTTP(w http.ResponseWriter, r *http.Request) {
 		return
 	}
 
-	e.LogWriter.Error(fmt.Sprintf("request error from (%s) %s: %+v", r.RemoteAddr, r.URL.String(), err))
+	// Log the path only: the query of the mail-link routes (confirm, recover,
+	// 2fa e-mail verify) carries the mailed token, which is still valid when
+	// the request failed before consuming it.
+	e.LogWriter.Error(fmt.Sprintf("request error from (%s) %s: %+v", r.RemoteAddr, r.URL.Path, err))
 }
